@@ -41,7 +41,8 @@ type c08SendIn struct {
 	Tip  bool   `json:"tip"` // SuggestGasTipCap succeeds
 	GP   bool   `json:"gp"`  // SuggestGasPrice succeeds
 	Sign bool   `json:"sign"`
-	Sub  bool   `json:"sub"` // SendTransaction succeeds
+	Sub  bool   `json:"sub"`          // SendTransaction succeeds
+	ET   string `json:"et,omitempty"` // what a failing call of this request says (c08ErrorKinds); "" = a generic error
 }
 
 type c08OpIn struct {
@@ -84,6 +85,43 @@ type c08ObsOp struct {
 
 var errC08Injected = errors.New("c08: injected failure")
 
+// same text as go-ethereum's core.ErrNonceTooLow (that package does not build offline)
+var errC08NonceTooLow = errors.New("nonce too low")
+
+// error values / texts a chain node (or the transport) answers with
+var c08ErrorKinds = []string{"", "nonce-too-low", "wrapped-nonce-too-low", "underpriced", "already-known", "funds",
+	"canceled", "deadline", "eof"}
+
+func c08Failure(kind string) error {
+	switch kind {
+	case "nonce-too-low":
+		return errors.New("nonce too low")
+	case "wrapped-nonce-too-low":
+		return fmt.Errorf("c08: node refused the transaction: %w", errC08NonceTooLow)
+	case "underpriced":
+		return errors.New("replacement transaction underpriced")
+	case "already-known":
+		return errors.New("already known")
+	case "funds":
+		return errors.New("insufficient funds for gas * price + value")
+	case "canceled":
+		return context.Canceled
+	case "deadline":
+		return context.DeadlineExceeded
+	case "eof":
+		return io.EOF
+	}
+	return errC08Injected
+}
+
+// failLocked: the error a failing call of the current request answers with
+func (n *c08Node) failLocked() error {
+	if n.cur == nil {
+		return errC08Injected
+	}
+	return c08Failure(n.cur.In.ET)
+}
+
 type c08Node struct {
 	mu       sync.Mutex
 	chainID  *big.Int
@@ -95,21 +133,46 @@ type c08Node struct {
 	cur      *c08Session
 	sessions []*c08Session
 	problems []string
-	wire     bool // JSON-RPC transport: requests are delimited by the driver, answers are what goes on the wire
-	reports  int  // confirmed-nonce answers given for a block number (the monitor's NonceAt)
+	draining bool                   // receipts are being served (drain step)
+	taken    map[common.Hash]uint64 // transactions the node accepted: hash -> nonce
+	wire     bool                   // JSON-RPC transport: requests are delimited by the driver, answers are what goes on the wire
+	reports  int                    // confirmed-nonce answers given for a block number (the monitor's NonceAt)
 }
 
 func (n *c08Node) problem(format string, a ...interface{}) {
 	n.problems = append(n.problems, fmt.Sprintf(format, a...))
 }
 
-type c08Batcher struct{}
+type c08Batcher struct{ n *c08Node }
 
-func (c08Batcher) BatchCallContext(ctx context.Context, b []rpc.BatchElem) error {
-	return errC08Injected
+// receipts are only served during a drain step; then every transaction the node took is mined
+func (b c08Batcher) BatchCallContext(ctx context.Context, elems []rpc.BatchElem) error {
+	n := b.n
+	n.mu.Lock()
+	defer n.mu.Unlock()
+	if !n.draining {
+		return errC08Injected
+	}
+	for i := range elems {
+		h, ok := elems[i].Args[0].(common.Hash)
+		if _, mined := n.taken[h]; !ok || !mined {
+			elems[i].Error = ethereum.NotFound
+			continue
+		}
+		if r, ok := elems[i].Result.(*types.Receipt); ok {
+			*r = *n.receiptLocked(h)
+		}
+	}
+	return nil
 }
 
-func (n *c08Node) Batcher() Batcher { return c08Batcher{} }
+func (n *c08Node) receiptLocked(h common.Hash) *types.Receipt {
+	return &types.Receipt{Type: types.DynamicFeeTxType, Status: types.ReceiptStatusSuccessful, CumulativeGasUsed: 21000,
+		Logs: []*types.Log{}, TxHash: h, GasUsed: 21000, BlockNumber: new(big.Int).SetUint64(n.block),
+		BlockHash: common.HexToHash("0xb10c"), EffectiveGasPrice: big.NewInt(1)}
+}
+
+func (n *c08Node) Batcher() Batcher { return c08Batcher{n} }
 func (n *c08Node) NetworkID(ctx context.Context) (*big.Int, error) {
 	return new(big.Int).Set(n.chainID), nil
 }
@@ -166,7 +229,7 @@ func (n *c08Node) PendingNonceAt(ctx context.Context, account common.Address) (u
 	n.queue = n.queue[1:]
 	n.beginLocked(s)
 	if s.Pending == nil {
-		return 0, errC08Injected
+		return 0, n.failLocked()
 	}
 	return *s.Pending, nil
 }
@@ -181,7 +244,7 @@ func (n *c08Node) SuggestGasPrice(ctx context.Context) (*big.Int, error) {
 	n.mu.Lock()
 	defer n.mu.Unlock()
 	if !n.current("SuggestGasPrice").In.GP {
-		return nil, errC08Injected
+		return nil, n.failLocked()
 	}
 	return big.NewInt(2000000000), nil
 }
@@ -189,7 +252,7 @@ func (n *c08Node) SuggestGasTipCap(ctx context.Context) (*big.Int, error) {
 	n.mu.Lock()
 	defer n.mu.Unlock()
 	if !n.current("SuggestGasTipCap").In.Tip {
-		return nil, errC08Injected
+		return nil, n.failLocked()
 	}
 	return big.NewInt(1000000000), nil
 }
@@ -197,7 +260,7 @@ func (n *c08Node) EstimateGas(ctx context.Context, call ethereum.CallMsg) (uint6
 	n.mu.Lock()
 	defer n.mu.Unlock()
 	if !n.current("EstimateGas").In.Est {
-		return 0, errC08Injected
+		return 0, n.failLocked()
 	}
 	return 30000, nil
 }
@@ -215,9 +278,13 @@ func (n *c08Node) submitLocked(tx *types.Transaction) error {
 	s.Reached = &v
 	s.hash = tx.Hash()
 	if !s.In.Sub {
-		return errC08Injected
+		return n.failLocked()
 	}
 	s.Accepted = true
+	if n.taken == nil {
+		n.taken = map[common.Hash]uint64{}
+	}
+	n.taken[tx.Hash()] = v
 	if v+1 > n.next && v+1 != 0 {
 		n.next = v + 1
 	}
@@ -227,7 +294,15 @@ func (n *c08Node) CallContract(ctx context.Context, call ethereum.CallMsg, block
 	return nil, errC08Injected
 }
 func (n *c08Node) TransactionReceipt(ctx context.Context, txHash common.Hash) (*types.Receipt, error) {
-	return nil, errC08Injected
+	n.mu.Lock()
+	defer n.mu.Unlock()
+	if !n.draining {
+		return nil, errC08Injected
+	}
+	if _, mined := n.taken[txHash]; !mined {
+		return nil, ethereum.NotFound
+	}
+	return n.receiptLocked(txHash), nil
 }
 func (n *c08Node) TransactionByHash(ctx context.Context, txHash common.Hash) (*types.Transaction, bool, error) {
 	return nil, false, errC08Injected
@@ -265,7 +340,7 @@ func (n *c08Node) answerRPC(r c08RPCReq) (interface{}, error) {
 				return hexutil.EncodeUint64(n.next), nil
 			}
 			if n.cur.Pending == nil {
-				return nil, errC08Injected
+				return nil, n.failLocked()
 			}
 			return hexutil.EncodeUint64(*n.cur.Pending), nil
 		}
@@ -275,17 +350,17 @@ func (n *c08Node) answerRPC(r c08RPCReq) (interface{}, error) {
 		return hexutil.EncodeUint64(n.conf), nil
 	case "eth_estimateGas":
 		if !n.current("eth_estimateGas").In.Est {
-			return nil, errC08Injected
+			return nil, n.failLocked()
 		}
 		return hexutil.EncodeUint64(30000), nil
 	case "eth_maxPriorityFeePerGas":
 		if !n.current("eth_maxPriorityFeePerGas").In.Tip {
-			return nil, errC08Injected
+			return nil, n.failLocked()
 		}
 		return hexutil.EncodeUint64(1000000000), nil
 	case "eth_gasPrice":
 		if !n.current("eth_gasPrice").In.GP {
-			return nil, errC08Injected
+			return nil, n.failLocked()
 		}
 		return hexutil.EncodeUint64(2000000000), nil
 	case "eth_sendRawTransaction":
@@ -303,7 +378,23 @@ func (n *c08Node) answerRPC(r c08RPCReq) (interface{}, error) {
 			return nil, err
 		}
 		return tx.Hash().Hex(), nil
-	case "eth_getTransactionReceipt", "eth_getTransactionByHash", "eth_call":
+	case "eth_getTransactionReceipt":
+		var h common.Hash
+		if !n.draining || len(r.Params) < 1 || json.Unmarshal(r.Params[0], &h) != nil {
+			return nil, errC08Injected
+		}
+		if _, mined := n.taken[h]; !mined {
+			return nil, nil // JSON null
+		}
+		b, err := n.receiptLocked(h).MarshalJSON()
+		if err != nil {
+			n.problem("cannot encode receipt: %v", err)
+			return nil, errC08Injected
+		}
+		m := map[string]interface{}{}
+		_ = json.Unmarshal(b, &m)
+		return m, nil
+	case "eth_getTransactionByHash", "eth_call":
 		return nil, errC08Injected
 	}
 	return nil, fmt.Errorf("c08: method %s not served", r.Method)
@@ -348,9 +439,10 @@ func (k *c08Signer) SignHash(data []byte) ([]byte, error) { return crypto.Sign(d
 func (k *c08Signer) SignTx(tx *types.Transaction, chainID *big.Int) (*types.Transaction, error) {
 	k.node.mu.Lock()
 	ok := k.node.current("SignTx").In.Sign
+	failure := k.node.failLocked()
 	k.node.mu.Unlock()
 	if !ok {
-		return nil, errC08Injected
+		return nil, failure
 	}
 	return types.SignTx(tx, types.NewLondonSigner(chainID), k.key)
 }
@@ -536,6 +628,48 @@ func c08Run(t *testing.T, in c08In, slow int) ([]c08ObsOp, []string) {
 			}
 			node.mu.Unlock()
 			obs = append(obs, c08ObsOp{K: "conf", Conf: v})
+		case "drain":
+			// everything the node took is mined; blocks advance until the monitor has delivered every
+			// receipt and the client's pending list is observed empty
+			node.mu.Lock()
+			node.draining = true
+			v := node.next
+			node.conf = v
+			node.mu.Unlock()
+			empty := false
+			for round := 0; round < 40 && !empty; round++ {
+				node.mu.Lock()
+				node.block++
+				node.permit = true
+				reportsBefore := node.reports
+				node.mu.Unlock()
+				if !c08Kick(client, slow) || !c08Kick(client, slow) {
+					node.problem("monitor did not take the wake-up")
+				}
+				node.mu.Lock()
+				if node.permit {
+					node.problem("monitor did not poll")
+					node.permit = false
+				}
+				if node.reports == reportsBefore {
+					node.problem("monitor did not ask for the confirmed nonce")
+				}
+				node.mu.Unlock()
+				obs = append(obs, c08ObsOp{K: "conf", Conf: v})
+				deadline := time.Now().Add(time.Duration(250*slow) * time.Millisecond)
+				for {
+					if empty = len(client.PendingTxns()) == 0; empty || time.Now().After(deadline) {
+						break
+					}
+					time.Sleep(time.Millisecond)
+				}
+			}
+			if !empty {
+				node.problem("pending list did not drain: %d left", len(client.PendingTxns()))
+			}
+			node.mu.Lock()
+			node.draining = false
+			node.mu.Unlock()
 		case "restart":
 			_ = client.Close() // the old process is gone before the new one starts
 			client = newClient()
@@ -607,6 +741,9 @@ func c08RandSend(r *rand.Rand, failRate int) c08SendIn {
 		s.PM = "err"
 	}
 	s.Est, s.Tip, s.GP, s.Sign, s.Sub = !fail(), !fail(), !fail(), !fail(), !fail()
+	if r.Intn(2) == 0 {
+		s.ET = c08ErrorKinds[r.Intn(len(c08ErrorKinds))]
+	}
 	return s
 }
 
@@ -643,7 +780,11 @@ func c08RandHistory(r *rand.Rand) c08In {
 				in.Ops = append(in.Ops, c08OpIn{K: "conf", CM: "next", CV: uint64(r.Intn(4))})
 			}
 		default:
-			in.Ops = append(in.Ops, c08OpIn{K: "restart"})
+			if r.Intn(3) == 0 {
+				in.Ops = append(in.Ops, c08OpIn{K: "drain"})
+			} else {
+				in.Ops = append(in.Ops, c08OpIn{K: "restart"})
+			}
 		}
 	}
 	return in
@@ -766,6 +907,74 @@ func c08StaleHistories() []c08In {
 	return out
 }
 
+// what a failing call SAYS must not matter: every error text / value at every call, followed by
+// stale, equal and fresh pending answers
+func c08ErrorTextHistories() []c08In {
+	var out []c08In
+	follow := []c08SendIn{c08OK("lag", 1), c08OK("lag", 2), c08OK("abs", 0), c08OK("acc", 0), c08OK("out", 1)}
+	for _, et := range c08ErrorKinds {
+		for call := 0; call < 6; call++ {
+			for _, f := range follow {
+				in := c08In{Start: 5}
+				for i := 0; i < 3; i++ {
+					in.Ops = append(in.Ops, c08Send(false, false, c08OK("acc", 0)))
+				}
+				s := c08OK("acc", 0)
+				s.ET = et
+				switch call {
+				case 0:
+					s.PM = "err"
+				case 1:
+					s.Est = false
+				case 2:
+					s.Tip = false
+				case 3:
+					s.GP = false
+				case 4:
+					s.Sign = false
+				case 5:
+					s.Sub = false
+				}
+				in.Ops = append(in.Ops, c08Send(false, false, s), c08Send(false, false, f), c08Send(false, false, f),
+					c08Send(false, false, c08OK("acc", 0)))
+				out = append(out, in)
+			}
+		}
+	}
+	return out
+}
+
+// everything sent is mined and its receipt collected (pending list observed empty), THEN stale,
+// equal or fresh pending answers; also with a failure or a restart after the drain
+func c08DrainHistories() []c08In {
+	var out []c08In
+	follow := []c08SendIn{c08OK("lag", 1), c08OK("lag", 2), c08OK("lag", 1000), c08OK("abs", 0), c08OK("acc", 0), c08OK("out", 2)}
+	for _, start := range []uint64{0, 5} {
+		for _, k := range []int{1, 3} {
+			for _, f := range follow {
+				for variant := 0; variant < 3; variant++ {
+					in := c08In{Start: start}
+					for i := 0; i < k; i++ {
+						in.Ops = append(in.Ops, c08Send(true, true, c08OK("acc", 0)))
+					}
+					in.Ops = append(in.Ops, c08OpIn{K: "drain"})
+					switch variant {
+					case 1: // a failed request between the drain and the stale answer
+						s := c08OK("acc", 0)
+						s.Sub, s.ET = false, "nonce-too-low"
+						in.Ops = append(in.Ops, c08Send(true, true, s))
+					case 2: // two rounds
+						in.Ops = append(in.Ops, c08Send(true, true, f), c08OpIn{K: "drain"})
+					}
+					in.Ops = append(in.Ops, c08Send(true, true, f), c08Send(true, true, f), c08Send(true, true, c08OK("acc", 0)))
+					out = append(out, in)
+				}
+			}
+		}
+	}
+	return out
+}
+
 // a client (re)started while the account has an unconfirmed backlog: confirmed c, pending c+k.
 // The window must stay anchored at what the node REPORTED as confirmed (c), whatever the pending nonce is.
 func c08BacklogHistories(long bool) []c08In {
@@ -830,6 +1039,8 @@ func c08WireHistory(r *rand.Rand) c08In {
 			in.Ops = append(in.Ops, c08Send(r.Intn(2) == 0, r.Intn(2) == 0, c08RandSend(r, failRate)))
 		case x < 7:
 			in.Ops = append(in.Ops, c08OpIn{K: "conf", CM: "next", CV: uint64(r.Intn(5))})
+		case x < 8:
+			in.Ops = append(in.Ops, c08OpIn{K: "drain"})
 		default:
 			in.Ops = append(in.Ops, c08OpIn{K: "restart"})
 			if r.Intn(2) == 0 {
@@ -921,6 +1132,22 @@ func TestVerifC08(t *testing.T) {
 	thorough := e.Tier == "thorough"
 	for _, in := range c08BacklogHistories(thorough) {
 		run("restart-with-backlog", in)
+	}
+	for _, in := range c08ErrorTextHistories() {
+		run("error-text", in)
+	}
+	for i, in := range c08ErrorTextHistories() {
+		if i%5 == 2 || thorough {
+			run("wire-error-text", c08OnWire(in))
+		}
+	}
+	for _, in := range c08DrainHistories() {
+		run("drain-then-stale", in)
+	}
+	for i, in := range c08DrainHistories() {
+		if i%3 == 0 || thorough {
+			run("wire-drain-then-stale", c08OnWire(in))
+		}
 	}
 	// the production assembly: New over WrapEthClient(ethclient) over JSON-RPC/HTTP
 	for _, in := range c08BacklogHistories(false) {
